@@ -1126,3 +1126,40 @@ func c10DistributionChange(c *Ctx) {
 	}
 	c.Check(n > 0 && hit == nil, rule, fname(fn)+":a change of the voting power distribution is accepted only if the total supply converts under it", site, "every accepting path either leaves the distribution alone or passes the success edge of VotingPowerFromStake(total supply)", "a ChangeParameters proposal can set the voting power distribution without the total supply having been converted under it: with an escrow balance that converts only under the old distribution (sqrt → linear) the next validator election fails and the scheduler's BeginBlock halts the chain (F62)")
 }
+
+// c05Round4 (written after seeds C05r4/10..12 were missed).
+func c05Round4(c *Ctx) {
+	// (a) seed 11 was reported by C09 only: the fee a failed transaction paid stays in the block's fee accumulator, so
+	// its debit must not be rolled back with the transaction.
+	deliverContextRule(c, "C05.pair")
+	const sp = "consensus/cometbft/apps/staking/state"
+	// (b) the ledger accessor hands out an account only for an address that is valid, i.e. well-formed and NOT one of
+	// the reserved pool addresses: the pools are separate records, and an "account" for a pool address that a handler
+	// credits and stores would be a second copy of the pool (counted twice) under a ledger key.
+	if fn := c.needFn("C05.ledger", sp+".(*ImmutableState).Account"); fn != nil {
+		c.SuccessRequiresCond("C05.ledger", fn, "address.IsValid()", `^staking/api\.\(Address\)\.IsValid\(param:address\)$`, "the staking ledger has no entry for the reserved pool addresses (common pool, fee accumulator, governance deposits): an account handed out for one of them and written back by a transfer or escrow handler duplicates the pool's balance in the ledger and loses the amount credited to it")
+	}
+	// (c) account records are never removed: an account is more than its balances — the escrow pools' total shares
+	// are what the delegations into it are counted against, and a removed record reads back as zero shares.
+	n, bad := 0, 0
+	for _, fn := range c.P.FuncsInPkg(sp) {
+		for _, call := range callsIn(fn) {
+			if !strings.HasSuffix(calleeName(call), ".Remove") {
+				continue
+			}
+			args := allArgs(call)
+			if len(args) < 3 {
+				continue
+			}
+			n++
+			if strings.Contains(vstr(args[2]), "*global:"+sp+".accountKeyFmt") {
+				bad++
+				c.Fail("C05.ledger", fname(fn)+":account records are never removed", c.P.InstrPos(call), "an account record is removed from the ledger: whatever the removed record still carried (escrow pool total shares with outstanding delegations, a nonce) reads back as zero — delegations into the pool then exceed its total shares and new deposits are priced 1:1")
+			}
+		}
+	}
+	if bad == 0 {
+		c.OK("C05.ledger", sp+":account records are never removed", "", itoa(n)+" removals in the staking state package, none of an account record")
+	}
+	c.Floor("C05.ledger", n, 5, "state removals in the staking state package (delegations, debonding queue, …)")
+}
